@@ -39,3 +39,25 @@ func (date *SerializableDate) UnmarshalJSON(data []byte) error {
 
 	return nil
 }
+
+// MarshalYAML implements yaml.Marshaler.
+func (date SerializableDate) MarshalYAML() (interface{}, error) {
+	return date.Format(time.DateOnly), nil
+}
+
+// UnmarshalYAML implements the (legacy) yaml.Unmarshaler interface, which needs no YAML import.
+func (date *SerializableDate) UnmarshalYAML(unmarshal func(interface{}) error) error {
+	var s string
+	if err := unmarshal(&s); err != nil {
+		return err
+	}
+
+	parsed, err := time.Parse(time.DateOnly, s)
+	if err != nil {
+		return fmt.Errorf("unable to parse date from YAML: %w", err)
+	}
+
+	date.Time = parsed
+
+	return nil
+}
